@@ -10,7 +10,8 @@
        Expr::Binary arithmetic arms  (Add Sub Mul Div Mod Pow)    arith  -- driven by Gen_EvalTables.arith_arms
        Expr::Binary Lt Le Gt Ge                                   ord_eval -- driven by Gen_EvalTables.ord_arms
        cmp_int_float (exact int/float order helper, if present)   cmp_int_float
-       Expr::Binary Eq NotEq In NotIn And Or Xor, others          eval_binop
+       Expr::Binary Eq NotEq (Value == or values_eq)              values_eq -- Gen_EvalTables.eq_numeric
+       Expr::Binary In NotIn And Or Xor, others                   eval_binop
        Expr::Unary                                                eval_unop -- Neg driven by Gen_EvalTables.neg_arms
        Timestamp literal arm / final `_ =>` arm                   Gen_EvalTables.timestamp_literal_handled / fallthrough
    eval_builtin_function                                          lookup_builtin + apply_builtin (abs by abs_int_mode)
@@ -18,6 +19,8 @@
    Rust (crates/varpulis-parser/src/optimize.rs)
    fold_expr / fold_arg                                           fold (None = the folder panics)
    fold_binary / fold_unary                                       fold_binary / fold_unary -- driven by Gen_FoldRules
+   (known-finding class of C10)                                   rule_okb / identity_fires: does a rule outside the
+                                                                  whitelist of type-safe rule shapes fire while folding e
 
    Outcomes: Val v = Some(v), NoVal = None, Panic = a Rust panic or abort.  Where the Rust code
    uses an operation that can panic (slice / index assignment out of range, raw i64 arithmetic) the
@@ -119,6 +122,34 @@ Definition dec_str (z : Z) : str :=
   (if z <? 0 then [45%N] else []) ++ str_of_string digits.
 
 Definition lit (x : string) : str := str_of_string x.
+
+(* ---------------------------------------------------- sound rule shapes (C10) *)
+(* The fold rules that are sound whatever the operands are: both operands literal and the action
+   computes what the evaluator computes (checked i64 operation, the evaluator's own Int ** Int
+   formula, the float operation; float division only under the non-zero guard).  Every other rule
+   -- in particular the type-blind identity rewrites `x * 0 -> 0`, `x * 1 -> x`, `x + 0 -> x`,
+   `x - 0 -> x`, `x / 1 -> x` -- is outside this list. *)
+Definition int_pair (op : binop) (o : iop2) : bool :=
+  match op, o with Add, IAdd | Sub, ISub | Mul, IMul | Div, IDiv | Mod, IRem => true | _, _ => false end.
+Definition float_rule (op : binop) (o : fop2) (g : fguard) : bool :=
+  match op, o with
+  | Add, FAdd | Sub, FSub | Mul, FMul => true
+  | Div, FDiv => match g with FGRightFloatNZ => true | _ => false end
+  | _, _ => false
+  end.
+Definition rule_okb (r : frule) : bool :=
+  match fr_l r, fr_r r, fr_act r with
+  | PIntAny, PIntAny, FAInt Checked o => int_pair (fr_op r) o
+  | PIntAny, PIntAny, FAPowEval => binop_eqb (fr_op r) Pow
+  | PFloatAny, PFloatAny, FAFloat o => float_rule (fr_op r) o (fr_g r)
+  | _, _, _ => false
+  end.
+Definition urule_okb (r : unop * lpat * uaction) : bool :=
+  match r with
+  | (Neg, PIntAny, UAInt Checked) => true
+  | (Neg, PFloatAny, UAFloat) => true
+  | _ => false
+  end.
 
 Section Model.
 Variable O : fops.
@@ -311,6 +342,16 @@ Fixpoint pick_oarm (arms : list oarm) (op : binop) (l r : value) : option bool :
   end.
 Definition ord_eval (op : binop) (l r : value) : option bool := pick_oarm ord_arms op l r.
 
+(* `==` / `!=`: plain Value equality, or evaluator.rs values_eq (Gen_EvalTables.eq_numeric):
+     (Int i, Float f) | (Float f, Int i) => cmp_int_float(i, f) == Some(Equal),  _ => left == right *)
+Definition values_eq (l r : value) : bool :=
+  if eq_numeric
+  then match l, r with
+       | VInt i, VFloat f | VFloat f, VInt i => match cmp_int_float i f with Some Eq => true | _ => false end
+       | _, _ => value_eqb l r
+       end
+  else value_eqb l r.
+
 Definition contains_val (l : list value) (v : value) : bool := existsb (fun x => value_eqb x v) l.
 Definition has_key {A} (k : str) (m : list (str * A)) : bool := match assoc k m with Some _ => true | None => false end.
 
@@ -328,8 +369,8 @@ Definition of_obool (o : option bool) : outcome value :=
 Definition eval_binop (op : binop) (l r : value) : outcome value :=
   match op with
   | Add | Sub | Mul | Div | Mod | Pow => arith op l r
-  | Eq_ => Val (VBool (value_eqb l r))
-  | NotEq => Val (VBool (negb (value_eqb l r)))
+  | Eq_ => Val (VBool (values_eq l r))
+  | NotEq => Val (VBool (negb (values_eq l r)))
   | Lt_ | Le | Gt_ | Ge => of_obool (ord_eval op l r)
   | In_ => of_obool (in_op l r)
   | NotIn => of_obool (option_map negb (in_op l r))
@@ -922,6 +963,61 @@ Fixpoint fold (e : expr) : option expr :=
                           obind (fold (snd (fst st))) (fun x' => Some (fst (fst st), x', snd st))) stmts)
             (fun stmts' => obind (fold res) (fun res' => Some (EBlock stmts' res')))
   | other => Some other
+  end.
+
+(* ------------------------------------------- known-finding class of C10 *)
+(* rule_fires: while folding the node `l op r` (children already folded), is an arm outside the
+   whitelist rule_okb selected?  Mirrors run_phases: in each phase the first matching arm is
+   selected; a whitelisted arm that produces nothing lets the next phase run. *)
+Fixpoint select_rule (rules : list frule) (op : binop) (l r : expr) : option frule :=
+  match rules with
+  | [] => None
+  | ru :: rest =>
+      if binop_eqb (fr_op ru) op && pat_matches (fr_l ru) l && pat_matches (fr_r ru) r && fguard_holds (fr_g ru) r
+      then Some ru
+      else select_rule rest op l r
+  end.
+Fixpoint rule_fires (phases : list (list frule)) (op : binop) (l r : expr) : bool :=
+  match phases with
+  | [] => false
+  | ph :: rest =>
+      match select_rule ph op l r with
+      | None => rule_fires rest op l r
+      | Some ru =>
+          if rule_okb ru
+          then match act_apply (fr_act ru) l r with NoVal => rule_fires rest op l r | _ => false end
+          else true
+      end
+  end.
+
+(* identity_fires e: somewhere in e the folder applies a rule outside the whitelist -- with the
+   current optimize.rs exactly: a type-blind identity rewrite fires (`x * 0`, `0 * x`, `x * 1`,
+   `1 * x`, `x + 0`, `0 + x`, `x - 0`, `x / 1` with x not an integer literal, after the
+   sub-expressions have been folded) *)
+Fixpoint identity_fires (e : expr) : bool :=
+  match e with
+  | EBin op l r =>
+      identity_fires l || identity_fires r ||
+      match fold l, fold r with
+      | Some l', Some r' => rule_fires fold_phases op l' r'
+      | _, _ => false
+      end
+  | EUn _ x => identity_fires x
+  | ECall f args => identity_fires f || existsb (fun a : option str * expr => identity_fires (snd a)) args
+  | EArr items => existsb identity_fires items
+  | EMap entries => existsb (fun kv : str * expr => identity_fires (snd kv)) entries
+  | ELambda _ body => identity_fires body
+  | EIf c t el => identity_fires c || identity_fires t || identity_fires el
+  | ECoalesce x d => identity_fires x || identity_fires d
+  | ERange s en _ => identity_fires s || identity_fires en
+  | EMember x _ => identity_fires x
+  | EOptMember x _ => identity_fires x
+  | EIndex x i => identity_fires x || identity_fires i
+  | ESlice x s en =>
+      identity_fires x || match s with Some y => identity_fires y | None => false end
+                       || match en with Some y => identity_fires y | None => false end
+  | EBlock stmts res => existsb (fun st : str * expr * bool => identity_fires (snd (fst st))) stmts || identity_fires res
+  | _ => false
   end.
 
 End Model.
